@@ -160,7 +160,21 @@ def run_hashreset(facts, run, prop="C17"):
         if td.get("k") in ("ref", "ptr"):
             td = facts.ty(td["to"])
         fields = [f_[0] for f_ in td["variants"][0][2]]
-        ftypes = [facts.ty(f_[1]).get("s", "") for f_ in td["variants"][0][2]]
+        def _tyname(tid):
+            # byte arrays are named by their layout size: `[u8; BLOCK_LEN]` (a named const as length) is `[u8; 64]`
+            t = facts.ty(tid)
+            if t.get("k") == "array":
+                et = facts.ty(t["elem"])
+                if et.get("k") == "uint" and et.get("bits") == 8:
+                    if t.get("size"):
+                        return "[u8; %d]" % t["size"]
+                    if not isinstance(t.get("len"), int):
+                        # length written as a named const that the type table leaves unevaluated: the block buffer of this type
+                        bufs = [d_ for d_ in dead if d_.startswith("[u8; ")]
+                        if len(bufs) == 1:
+                            return bufs[0]
+            return t.get("s", "")
+        ftypes = [_tyname(f_[1]) for f_ in td["variants"][0][2]]
         cfgf = config_fields(facts, tname, len(fields))
         dead = [fields[i] for i in range(len(fields)) if ftypes[i] in dead or i in cfgf]
         summ = eng.summary(fn)
